@@ -197,7 +197,9 @@ const REC_CLASSES: [&str; 8] = ["grow1_end", "grow5_end", "grow1_mid", "grow5_mi
 /// index: every cut position of the first RECCUT bytes -- a record that ends inside any of its header fields
 const RECCUT: usize = 48;
 /// "xmltag": one XML tag (start, end or empty-element tag at the field's offset) deleted / written twice
-const XMLTAG_CLASSES: [&str; 2] = ["delete", "twice"];
+/// ... or the whole part cut right after / in the middle of the tag (end of input in whatever state the
+/// reader is in at that tag: inside a cell, a string item, a row, a table ...)
+const XMLTAG_CLASSES: [&str; 4] = ["delete", "twice", "cut_after", "cut_inside"];
 
 pub fn nclasses(kind: &str) -> usize {
     match kind { "num" => NUM_CLASSES.len(), "xmlnum" => XMLNUM_CLASSES.len(), "xmlref" => XMLREF_CLASSES.len(), "rec" | "rec12" => REC_CLASSES.len(),
@@ -440,7 +442,9 @@ fn patch(buf: &mut Vec<u8>, f: &Field, cls: usize) {
             let tag = buf[f.off..f.off + f.width].to_vec();
             match XMLTAG_CLASSES[cls] {
                 "delete" => { buf.splice(f.off..f.off + f.width, Vec::new()); }
-                _ => { buf.splice(f.off..f.off, tag); }
+                "twice" => { buf.splice(f.off..f.off, tag); }
+                "cut_after" => buf.truncate(f.off + f.width),
+                _ => buf.truncate(f.off + f.width / 2),
             }
         }
         "xmlnum" | "xmlref" => {
